@@ -6,15 +6,16 @@
    ScheduledBasicBlock::build makes, and the builder runs.
 
    Alphabets (constant Alpha):
-     "mem"    classical instructions over regions a, b (every read / write / read-write shape, two-region
-              shapes), NOP, and the RF instructions that touch memory (capture into a, expression reading a)
+     "mem"    pure-write and pure-read probes for regions a, b, c and one instruction of every classical kind with
+              >= 2 operands (MOVE, ADD, XOR, EQ, CONVERT, EXCHANGE, LOAD, STORE), each operand in its own region, so
+              that every operand is somewhere the only link to a neighbour; RF instructions that touch memory
      "rf"     RF instructions over three defined frames on overlapping qubits (0 "x", 1 "x", 0 1 "cz") and
               one undefined frame: blocking / non-blocking pulses, captures, raw captures, frame updates,
               SWAP-PHASES, fences (bare / one qubit / two qubits), delays (with / without frame names),
               RESET (bare / per qubit)
      "mixed"  a selection of both, plus the instructions the builder refuses (WAIT, a gate)
      "mem4" / "rf4" / "mixed4"  subsets of the above for the exhaustive length-4 runs of the thorough tier  *)
-EXTENDS BlockGraph, MemAccess, FrameMatch, Json
+EXTENDS BlockGraph, Handler, Json
 CONSTANTS MaxLen, Alpha
 
 \* ---- frames ----
@@ -58,24 +59,31 @@ JumpI            == [k |-> "Jump", target |-> "t"]
 JumpWhen(m)      == [k |-> "JumpWhen", target |-> "t", cond |-> m]
 JumpUnless(m)    == [k |-> "JumpUnless", target |-> "t", cond |-> m]
 
+\* Memory alphabet.  Probes: for every region x of a, b, c a pure write  MOVE x[0] 1  and a pure read
+\* MOVE d[k] x[1]  (the readers write d, which no instruction under test mentions).  Instructions under test:
+\* every classical kind with >= 2 operands, each operand in a region of its own, so that next to a probe each
+\* operand is the ONLY link between the two instructions (EQ b[0] a[1] c[0] next to MOVE a[0] 1: only the left
+\* operand links them), with indices different from the probes' (region-level, not reference-level, keying).
+WriteProbe(x) == Move(Ref(x, 0), Int)
+ReadProbe(x, k) == Move(Ref("d", k), MRef(x, 1))
+Compare(o, d, l, r) == [k |-> "Compare", op |-> o, dst |-> d, lhs |-> l, rhs |-> r]
+Convert(d, m)       == [k |-> "Convert", dst |-> d, src |-> m]
+Logic(o, d, x)      == [k |-> "Logic", op |-> o, dst |-> d, src |-> x]
+FlatB == <<Num, [t |-> "inf", op |-> "*", l |-> Num, r |-> Addr("b")]>>
 MemAlphabet ==
-    { Move(Ref("a", 0), Int),                       \* W a
-      Move(Ref("a", 1), MRef("b", 0)),              \* R b, W a
-      Move(Ref("b", 0), MRef("a", 1)),              \* R a, W b
-      Arith("ADD", Ref("a", 0), Int),               \* RW a
-      Arith("MUL", Ref("b", 0), MRef("a", 0)),      \* R a, RW b
-      Unary("NEG", Ref("b", 1)),                    \* RW b
-      Exchange(Ref("a", 0), Ref("b", 0)),           \* RW a, RW b
-      Load(Ref("a", 0), "b", Ref("b", 1)),          \* R b, W a
-      Store("b", Ref("a", 0), Int),                 \* R a, W b
-      Move(Ref("a", 0), MRef("a", 1)),              \* R a, W a (copy inside a region)
-      NopI,
-      Capture(FALSE, F0, Flat, Ref("a", 0)),        \* C a
-      Capture(FALSE, F1, FlatA, Ref("b", 0)),       \* R a, C b
-      RawCapture(FALSE, F1, Ref("a", 0)),           \* C a
-      Capture(FALSE, F01, FlatA, Ref("a", 0)),      \* R a, C a
-      SetPhase(F0, Addr("a")),                      \* R a
-      ShiftFreq(F1, Addr("b")) }                    \* R b
+    { WriteProbe("a"), WriteProbe("b"), WriteProbe("c"),
+      ReadProbe("a", 0), ReadProbe("b", 1), ReadProbe("c", 2),
+      Move(Ref("a", 1), MRef("b", 0)),                       \* W a, R b
+      Arith("ADD", Ref("b", 1), MRef("c", 0)),               \* RW b, R c
+      Logic("XOR", Ref("c", 1), MRef("a", 0)),               \* RW c, R a
+      Compare("EQ", Ref("b", 0), Ref("a", 1), MRef("c", 0)), \* W b, R a (left operand), R c
+      Convert(Ref("c", 0), Ref("a", 1)),                     \* W c, R a
+      Exchange(Ref("a", 1), Ref("b", 0)),                    \* RW a, RW b
+      Load(Ref("a", 1), "b", Ref("c", 0)),                   \* W a, R b (dynamic), R c (offset)
+      Store("a", Ref("b", 1), MRef("c", 0)),                 \* W a (dynamic), R b (offset), R c
+      Capture(FALSE, F0, FlatB, Ref("a", 1)),                \* R b (waveform), C a
+      RawCapture(FALSE, F1, Ref("c", 1)),                    \* C c
+      SetPhase(F0, Addr("a")) }                              \* R a
 RfAlphabet ==
     { Pulse(TRUE, F0, Flat), Pulse(FALSE, F0, Flat), Pulse(TRUE, F1, Flat), Pulse(FALSE, F1, Flat),
       Pulse(TRUE, F01, Flat), Pulse(FALSE, F01, Flat), Pulse(TRUE, FU, Flat), Pulse(FALSE, FU, Flat),
@@ -94,9 +102,9 @@ MixedAlphabet ==
       WaitI, GateI }
 \* reduced alphabets for the exhaustive length-4 runs of the thorough tier
 Mem4Alphabet ==
-    { Move(Ref("a", 0), Int), Move(Ref("a", 1), MRef("b", 0)), Move(Ref("b", 0), MRef("a", 1)), Arith("ADD", Ref("a", 0), Int),
-      Exchange(Ref("a", 0), Ref("b", 0)), Load(Ref("a", 0), "b", Ref("b", 1)), NopI,
-      Capture(FALSE, F0, Flat, Ref("a", 0)), Capture(FALSE, F1, FlatA, Ref("b", 0)), SetPhase(F0, Addr("a")) }
+    { WriteProbe("a"), WriteProbe("b"), ReadProbe("a", 0), ReadProbe("c", 2), Move(Ref("a", 1), MRef("b", 0)),
+      Arith("ADD", Ref("a", 0), Int), Compare("EQ", Ref("b", 0), Ref("a", 1), MRef("c", 0)), Exchange(Ref("a", 1), Ref("b", 0)),
+      Load(Ref("a", 1), "b", Ref("c", 0)), NopI, Capture(FALSE, F0, FlatB, Ref("a", 1)), SetPhase(F0, Addr("a")) }
 Rf4Alphabet ==
     { Pulse(TRUE, F0, Flat), Pulse(FALSE, F0, Flat), Pulse(TRUE, F1, Flat), Pulse(FALSE, F01, Flat), Pulse(FALSE, FU, Flat),
       SetPhase(F0, Num), SwapPhases(F0, F01), Fence(<<>>), Fence(<<1>>), Delay(<<0>>, <<>>, Num), Reset(None), Reset(Some(1)) }
@@ -106,38 +114,24 @@ Mixed4Alphabet ==
       SetPhase(F1, Addr("a")), Fence(<<>>), Reset(Some(1)) }
 Alphabet == CASE Alpha = "mem" -> MemAlphabet [] Alpha = "rf" -> RfAlphabet [] Alpha = "mixed" -> MixedAlphabet
               [] Alpha = "mem4" -> Mem4Alphabet [] Alpha = "rf4" -> Rf4Alphabet [] Alpha = "mixed4" -> Mixed4Alphabet
-Terminators == CASE Alpha = "mem"   -> {<<>>, <<JumpWhen(Ref("a", 0))>>, <<JumpUnless(Ref("b", 0))>>}
+Terminators == CASE Alpha = "mem"   -> {<<>>, <<JumpWhen(Ref("a", 1))>>, <<JumpUnless(Ref("c", 1))>>}
                  [] Alpha = "rf"    -> {<<>>, <<JumpI>>}
                  [] Alpha = "mixed" -> {<<>>, <<JumpI>>, <<JumpWhen(Ref("a", 0))>>}
                  [] Alpha = "mem4"  -> {<<HaltI>>, <<JumpWhen(Ref("a", 0))>>}
                  [] Alpha = "rf4"   -> {<<>>}
                  [] Alpha = "mixed4" -> {<<>>, <<JumpWhen(Ref("a", 0))>>}
 
-\* ---- the handler: InstructionHandler::{role, is_scheduled, memory_accesses, matching_frames} ----
-RoleOf(i) ==
-    CASE i.k \in {"Reset", "Capture", "Delay", "Fence", "Pulse", "RawCapture", "SetFrequency", "SetPhase",
-                  "SetScale", "ShiftFrequency", "ShiftPhase", "SwapPhases"} -> "RF"
-      [] i.k \in {"Arith", "Call", "Compare", "Convert", "Logic", "Unary", "Move", "Exchange", "Load", "Nop",
-                  "Pragma", "Store"} -> "C"
-      [] i.k \in {"Halt", "Jump", "JumpWhen", "JumpUnless", "Wait"} -> "CF"
-      [] OTHER -> "PC"
-IsScheduled(i) == IF i.k = "Reset" THEN FALSE ELSE IF i.k = "Wait" THEN TRUE ELSE RoleOf(i) = "RF"
-\* Instruction::get_qubits, as far as the alphabets go
-QubitsOf(i) == CASE i.k \in {"Pulse", "Capture", "RawCapture"} -> Range(i.frame.qubits)
-                 [] i.k \in {"Delay", "Fence", "Gate"} -> Range(i.qubits)
-                 [] i.k = "Reset" -> IF IsSome(i.qubit) THEN {i.qubit.some} ELSE {}
-                 [] OTHER -> {}
-UsedQubits(is) == UNION {QubitsOf(is[n]) : n \in DOMAIN is}
-Summary(i, uq) ==
-    LET acc == Reported(i, <<>>)
-        mf  == Matching(i, DefFrames, uq)
-    IN [role |-> RoleOf(i), timed |-> IsScheduled(i), r |-> acc.reads, w |-> acc.writes, c |-> acc.captures,
-        use |-> IF IsSome(mf) THEN mf.some.used ELSE {}, blk |-> IF IsSome(mf) THEN mf.some.blocked ELSE {}]
+\* ---- the handler, according to the specification (module Handler) ----
+\* The access sets of the alphabet's symbols are derived once (a constant-level table); the semantic derivation of
+\* MemAccess is too costly to repeat in every Start transition.
+AllSymbols == Alphabet \cup UNION {Range(t) : t \in Terminators}
+AccTable == [i \in AllSymbols |-> SpecAccess(i)]
+SummaryOf(i, uq) == SummaryFrom(i, AccTable[i], DefFrames, uq)
 
 VARIABLES src, tsrc      \* the concrete block and terminator being generated
 mvars == <<bvars, src, tsrc>>
 
-Init == /\ RunInit(<<>>, <<>>, {"a", "b"}, DefFrames) /\ phase = "gen" /\ src = <<>> /\ tsrc = <<>>
+Init == /\ RunInit(<<>>, <<>>, {"a", "b", "c", "d"}, DefFrames) /\ phase = "gen" /\ src = <<>> /\ tsrc = <<>>
 Grow == /\ phase = "gen" /\ Len(src) < MaxLen
         /\ \E i \in Alphabet : src' = Append(src, i)
         /\ UNCHANGED <<bvars, tsrc>>
@@ -145,8 +139,8 @@ Start == /\ phase = "gen"
          /\ \E t \in Terminators :
               LET uq == UsedQubits(src) IN
               /\ tsrc' = t
-              /\ prog' = [n \in DOMAIN src |-> Summary(src[n], uq)]
-              /\ term' = [n \in DOMAIN t |-> Summary(t[n], uq)]
+              /\ prog' = [n \in DOMAIN src |-> SummaryOf(src[n], uq)]
+              /\ term' = [n \in DOMAIN t |-> SummaryOf(t[n], uq)]
          /\ phase' = "run"
          /\ UNCHANGED <<src, regions, frames, pc, mem, fr, tfr, trailing, edges>>
 RunStep     == Step /\ UNCHANGED <<src, tsrc>>
@@ -161,5 +155,6 @@ SummariesSane == \A n \in DOMAIN prog : prog[n].use \cap prog[n].blk = {} /\ pro
 \* one line per explored behaviour: the concrete block and the expected public result
 Emit == phase \in {"done", "err"} =>
           PrintT(<<"CASE", ToJson([src |-> src, term |-> tsrc, frames |-> DefFrames, res |-> phase,
+                                   sums |-> prog, tsum |-> term,      \* the specification's summaries: the verdict's conflict relation
                                    edges |-> IF phase = "done" THEN edges ELSE {}])>>)
 =============================================================================
